@@ -95,7 +95,18 @@ def opt_disjoint(ctx):
             out.append(ok("true-after-exhaustion") if exhausted and not hit else bad("true-after-exhaustion", "is_disjoint returns true without having exhausted the class (%s)" % gs[-2:], loc))
             # ... of the whole class: the iterator that ran out is the class's own character iterator (or the loop
             # variable it was moved into), not a truncated view of it (take, take_while, step_by, skip ...)
-            full = all(re.match(r"^variant\((?:<[^>]*(?:<[^>]*>)?[^>]*>::)?next\((?:v|CodePointInversionList::iter_chars\(a[12]\.0\))\)\)=None$", g) for g in ex)
+            def _whole(g):
+                m = re.match(r"^variant\((?:<.*?>::)?next\((.*)\)\)=None$", g)
+                if not m:
+                    return False
+                it = m.group(1)
+                while True:
+                    m2 = re.match(r"^Iterator::(?:enumerate|copied|cloned|rev|peekable|fuse)\((.*)\)$", it)
+                    if not m2:
+                        break
+                    it = m2.group(1)
+                return it == "v" or re.match(r"^CodePointInversionList::iter_chars\(a[12]\.0\)$", it) is not None
+            full = all(_whole(g) for g in ex)
             out.append(ok("true-after-exhaustion|of-the-whole-class") if exhausted and full else bad("true-after-exhaustion|of-the-whole-class", "is_disjoint answers true when an iterator runs out that does not cover the whole class (%s): characters that were never looked at may be common to both" % (ex or gs[-2:]), loc))
         elif r == "false":
             pass
